@@ -77,15 +77,15 @@ func (r *c14Router) GetClosestPeers(ctx context.Context, key string) ([]peer.ID,
 
 // c14ProvCfg is a drawn provider configuration.
 type c14ProvCfg struct {
-	repl                 int
-	reprovide            time.Duration
-	workers, per, burst  int
-	offlineDelay         time.Duration
-	ownKeystore, ownDS   bool
-	resume, skipBoot     bool
-	withHost, selfAddrs  bool
-	gcpFault, rpcFault   int
-	parkDS               bool
+	repl                int
+	reprovide           time.Duration
+	workers, per, burst int
+	offlineDelay        time.Duration
+	ownKeystore, ownDS  bool
+	resume, skipBoot    bool
+	withHost, selfAddrs bool
+	gcpFault, rpcFault  int
+	parkDS              bool
 }
 
 func c14DrawProvCfg(s *sim.Sim) c14ProvCfg {
